@@ -53,7 +53,7 @@ func init() {
 		Run:             runC17,
 		CaseTimeout:     3 * time.Minute,
 		HangIsViolation: true,
-		Rule: "seven families: (1) Close at a PRNG-chosen moment of a history run with the started flusher (1 ms) and background collectors (1-5 ms, with/without time limit) on small files; (2) Close issued while a background GC cycle is parked at a GC hook (each of the index/primary collector and freelist hand-over hook points in turn; the gate is released a few ms after Close passed its entry hook); (3) Close while the flusher is parked inside a flush with rate-limited writers waiting; (4) failing opens (file-size mismatches, corrupt/empty headers, unsupported primary type, cancelled context, interrupted/unreadable translation, illegal sizes, legacy-format stores whose index file ends inside a size prefix or inside a record) followed by a correct open; (5) 200 open/use/close cycles in one process; (6) scripted descriptor windows: G22 (a read obtains a private handle while the file cache is disabled and gives it back after the cache was enabled and holds another handle of the same file) and G23 (readers while SetFileCacheSize switches the cache off and on), Go's collector switched off so that no finalizer closes a leaked handle, descriptors into the store directory examined after Close; (7) Close that has to write while the write cannot succeed (the next primary file already exists / the next index file is a directory, with or without the flusher having hit the fault first): whatever Close returns, the same post-Close oracle applies, also after a second Close. Oracle after Close returned nil: no hook event of the store fires any more (immediately and after >= 20 GC intervals), no descriptor under the store's directories is open, no goroutine with a go-storethehash frame stays blocked over three goroutine profiles, the directory content hash does not change, and a reopened store shows the model's contents before and after a primary + index GC cycle; after a failed open no new descriptor or store goroutine exists and a correct open finds the contents; counts do not grow over cycles. " +
+		Rule: "seven families: (1) Close at a PRNG-chosen moment of a history run with the started flusher (1 ms) and background collectors (1-5 ms, with/without time limit) on small files; (2) Close issued while a background GC cycle is parked at a GC hook (each of the index/primary collector and freelist hand-over hook points in turn; the gate is released a few ms after Close passed its entry hook); (3) Close while the flusher is parked inside a flush with rate-limited writers waiting; (4) failing opens (file-size mismatches, corrupt/empty headers, unsupported primary type, cancelled context, interrupted/unreadable translation, illegal sizes, legacy-format stores whose index file ends inside a size prefix or inside a record) followed by a correct open; (5) 200 open/use/close cycles in one process; (6) scripted descriptor windows: G22 (a read obtains a private handle while the file cache is disabled and gives it back after the cache was enabled and holds another handle of the same file) G23 (readers while SetFileCacheSize switches the cache off and on) and C06's collector x caller windows G7-G11, G24, Go's collector switched off so that no finalizer closes a leaked handle, descriptors into the store directory examined after Close; (7) Close that has to write while the write cannot succeed (the next primary file already exists / the next index file is a directory, with or without the flusher having hit the fault first): whatever Close returns, the same post-Close oracle applies, also after a second Close. Oracle after Close returned nil: no hook event of the store fires any more (immediately and after >= 20 GC intervals), no descriptor under the store's directories is open, no goroutine with a go-storethehash frame stays blocked over three goroutine profiles, the directory content hash does not change, and a reopened store shows the model's contents before and after a primary + index GC cycle; after a failed open no new descriptor or store goroutine exists and a correct open finds the contents; counts do not grow over cycles. " +
 			"non-trivial iff the store had background activity during the case (GC hook events or flusher commits observed) or, for family 4, the failing open was really refused; distinct = family x hook/kind x observed event-order hash",
 		Assumptions: []string{
 			"clients have stopped calling when Close is issued (calls racing with Close are misuse), except rate-limited writers already waiting in family 3",
